@@ -143,6 +143,10 @@ def gen_page(rng, tier):
         if rng.random() < 0.5:
             pos = min(pos, 1)
         lines.insert(pos, _gen_header(rng))
+        if rng.random() < 0.08:
+            # a second header-shaped line further down: the header is the first
+            # one, the second is "every other line" and must stay untouched
+            lines.insert(rng.randint(pos + 1, len(lines)), _gen_header(rng))
     page = "\n".join(lines)
     if lines and rng.random() < 0.85:
         page += "\n"
@@ -238,6 +242,8 @@ def header_shape(page):
         return "missing"
     lines = split_lines(page)
     i, q = find_header(lines)
+    if i is not None and find_header(lines[i + 1:])[0] is not None:
+        return f"hdr@{min(i, 3)}q{min(len(q) // 2, 4)}+second"
     if i is None:
         return "malformed-only" if any(l.startswith(".TH ") for l in lines) else "none"
     return f"hdr@{min(i, 3)}q{min(len(q) // 2, 4)}{'' if page.endswith(chr(10)) else '-nonl'}"
@@ -429,8 +435,9 @@ def coverage(merged, tier):
 
 
 ASSUMPTIONS = [
-    "pages are LF-terminated ASCII with at most one well-formed header line, as the "
-    "property's quantifier states; versions contain no double quote and no newline",
+    "pages are LF-terminated ASCII as the property's quantifier states; versions contain "
+    "no double quote and no newline; when a page carries two header-shaped lines (8% of "
+    "pages with a header) 'the header line' is the first one, as in roff",
     "the simulated zone is UTC and the C locale's month abbreviations apply",
     "torn / partial writes are not injected: the property promises no atomicity",
     "the date written is the simulated wall-clock date at the invocation that changes "
